@@ -325,6 +325,102 @@ fn ctx_of(op: &Op, log: &Value) -> Value {
     ctor("mkCtx", vec![json!(key), g, val, tok, json!(src)])
 }
 
+
+/// GC racing in-process writers: one or two writers are parked right before their pointer switch
+/// (payload / copied generation already on the backend, nothing references it yet), collect_garbage
+/// runs to completion, then the writers are released.  Every written key must read its new value.
+async fn gc_races(rng: &mut Rng, rounds: usize, failures: &mut Vec<Value>, evaluations: &mut u64) -> (u64, u64) {
+    let kinds = [Kind::Meta, Kind::Enc(7), Kind::Enc(16)];
+    let mut scenarios = 0u64;
+    let mut gc_deleted = 0u64;
+    for round in 0..rounds {
+        for kind in kinds {
+            for nwriters in 1..=2usize {
+                for shape in 0..4usize {
+                    scenarios += 1;
+                    let mem = Arc::new(InMemory::new());
+                    let (init, _) = gen_init(rng, Kind::Enc(1)); // orphans only
+                    plant(&mem, &init).await;
+                    let p = start(kind, mem.clone());
+                    let os = p.w.os();
+                    let base = rand_bytes(rng, 9);
+                    os.put(&Path::from("a"), Bytes::from(base.clone()).into()).await.unwrap();
+                    os.put(&Path::from("c"), Bytes::from(base.clone()).into()).await.unwrap();
+                    let gate = Gate::new("meta/", nwriters);
+                    *p.rec.gate.lock().unwrap() = Some(gate.clone());
+                    let mut handles = Vec::new();
+                    let mut expect: Vec<(String, Vec<u8>)> = Vec::new();
+                    for wi in 0..nwriters {
+                        let w = p.w.clone();
+                        let data = rand_bytes(rng, 5 + wi + shape);
+                        // writer 0: the scenario's shape; writer 1: a put on another key
+                        let (target, val, kindname) = if wi == 1 { ("d/e/f".to_string(), data.clone(), 0) } else {
+                            match shape {
+                                0 => ("a".to_string(), data.clone(), 0),       // overwrite
+                                1 => ("a/b".to_string(), data.clone(), 0),     // new key
+                                2 => ("a/b".to_string(), base.clone(), 1),     // copy a -> a/b
+                                _ => ("a".to_string(), data.clone(), 2),       // multipart overwrite
+                            }
+                        };
+                        expect.push((target.clone(), val.clone()));
+                        handles.push(tokio::spawn(async move {
+                            let os = w.os();
+                            let r: Result<()> = match kindname {
+                                0 => os.put(&Path::from(target.as_str()), Bytes::from(data).into()).await.map(|_| ()),
+                                1 => os.copy(&Path::from("a"), &Path::from(target.as_str())).await,
+                                _ => match os.put_multipart(&Path::from(target.as_str())).await {
+                                    Ok(mut up) => match up.put_part(Bytes::from(data).into()).await {
+                                        Ok(()) => up.complete().await.map(|_| ()),
+                                        Err(e) => Err(e),
+                                    },
+                                    Err(e) => Err(e),
+                                },
+                            };
+                            r.map_err(|e| e.to_string())
+                        }));
+                    }
+                    // all writers are parked at their pointer switch
+                    match tokio::time::timeout(std::time::Duration::from_secs(20), gate.entered.acquire_many(nwriters as u32)).await {
+                        Ok(Ok(permit)) => permit.forget(),
+                        _ => {
+                            failures.push(json!({"class":"harness-nondeterminism","what":"writers did not reach their pointer switch","wrapper":kind.name(),"shape":shape}));
+                            gate.release.add_permits(nwriters);
+                            continue;
+                        }
+                    }
+                    tokio::time::sleep(std::time::Duration::from_millis(2)).await;
+                    match p.w.gc().await {
+                        Ok(nd) => gc_deleted += nd as u64,
+                        Err(e) => failures.push(json!({"class":"gc-failed","what":"collect_garbage fails while writers are in flight","error":e.to_string()})),
+                    }
+                    gate.release.add_permits(nwriters);
+                    for h in handles {
+                        if let Ok(Err(e)) = h.await {
+                            failures.push(json!({"class":"gc-race","what":"a writer fails after collect_garbage ran during its commit","error":e,"wrapper":kind.name(),"shape":shape,"writers":nwriters}));
+                        }
+                    }
+                    *p.rec.gate.lock().unwrap() = None;
+                    let p2 = start(kind, mem.clone());
+                    let shape_name = ["put-overwrite", "put-new", "copy", "multipart"][shape];
+                    for (k, v) in &expect {
+                        *evaluations += 1;
+                        let got = read_key(p2.w.os(), k).await;
+                        if got != Read::Val(v.clone()) {
+                            failures.push(json!({"class":"gc-race","what":"collect_garbage, run while a writer was between its payload write and its pointer switch, removed the payload the key now points at",
+                                "wrapper":kind.name(),"round":round,"writers":nwriters,"shape":shape_name,"key":k,"read":show(&got),"expected_len":v.len()}));
+                        }
+                    }
+                    *evaluations += 1;
+                    if read_key(p2.w.os(), "c").await != Read::Val(base.clone()) {
+                        failures.push(json!({"class":"gc-race","what":"an untouched key changed during a GC race","wrapper":kind.name()}));
+                    }
+                }
+            }
+        }
+    }
+    (scenarios, gc_deleted)
+}
+
 pub fn main(args: &[String]) {
     let out_path = arg_value(args, "--out").expect("--out");
     let seqs: usize = arg_value(args, "--seqs").and_then(|s| s.parse().ok()).unwrap_or(60);
@@ -584,6 +680,8 @@ async fn run(seqs: usize, out: &mut impl std::io::Write) {
         }
     }
 
+    let race_rounds = if seqs >= 500 { 20 } else { 3 };
+    let (race_scenarios, race_deleted) = gc_races(&mut rng, race_rounds, &mut failures, &mut evaluations).await;
     let oracle_failures = failures.len();
     let mut per_class: BTreeMap<String, u64> = BTreeMap::new();
     failures.retain(|f| {
@@ -593,7 +691,7 @@ async fn run(seqs: usize, out: &mut impl std::io::Write) {
     });
     let summary = json!({"kind":"summary","sequences":seqs,"crash_points":crash_points,"evaluations":evaluations,
         "model_cases":model_cases,"gc_runs_after_crash":gc_runs,"gc_deleted_after_crash":gc_deleted,
-        "legacy_migrations":legacy_migrations,"nontrivial":nontrivial,
+        "legacy_migrations":legacy_migrations,"nontrivial":nontrivial,"gc_race_scenarios":race_scenarios,"gc_deleted_during_races":race_deleted,
         "ops":op_hist,"wrappers":kind_hist,"interrupted":interrupted_hist,"outcomes":outcome_hist,
         "oracle_failures":oracle_failures,"failure_classes":per_class,"failures":failures});
     writeln!(out, "{summary}").unwrap();
